@@ -419,7 +419,7 @@ impl Gen<'_> {
     fn go(&mut self, size: usize, scope: &mut Vec<String>) -> F {
         let f = self.go_inner(size, scope);
         // remember small sub-trees whose free variables are at most one, for duplication
-        if f.size() >= 2 && f.size() <= 7 && f.free_vars().len() <= 1 && self.pool.len() < 8 {
+        if f.size() >= 2 && f.size() <= 7 && f.free_vars().len() <= 2 && self.pool.len() < 10 {
             self.pool.push(f.clone());
         }
         f
@@ -438,11 +438,30 @@ impl Gen<'_> {
             if depth_ok && !bound_clash {
                 if fv.is_empty() {
                     return cand;
-                } else if !scope.is_empty() {
+                } else if fv.len() == 1 && !scope.is_empty() {
                     let target = self.rng.pick(scope).clone();
                     let from = fv[0].clone();
                     if !bound_names(&cand).contains(&target) {
                         return cand.rename_vars(&|v| if v == from { target.clone() } else { v.to_string() });
+                    }
+                } else if fv.len() == 2 && scope.len() >= 2 {
+                    // two free variables: re-insert under a random injective renaming, which includes the
+                    // same two names with swapped roles and names shifted by one nesting level
+                    let mut targets: Vec<String> = scope.clone();
+                    self.rng.shuffle(&mut targets);
+                    let (t0, t1) = (targets[0].clone(), targets[1].clone());
+                    let bound = bound_names(&cand);
+                    if !bound.contains(&t0) && !bound.contains(&t1) {
+                        let (f0, f1) = (fv[0].clone(), fv[1].clone());
+                        return cand.rename_vars(&|v| {
+                            if v == f0 {
+                                t0.clone()
+                            } else if v == f1 {
+                                t1.clone()
+                            } else {
+                                v.to_string()
+                            }
+                        });
                     }
                 }
             }
@@ -478,6 +497,22 @@ impl Gen<'_> {
                 let op = *self.rng.pick(&self.opts.bin_ops);
                 let left = self.rng.range(1, size - 2);
                 let a = self.go(left, scope);
+                // a sibling that is the same sub-formula with the roles of its two free variables swapped
+                // (a duplicate up to renaming whose renaming collides with the original names)
+                let fv = a.free_vars();
+                if fv.len() == 2 && a.size() >= 2 && self.opts.dup_pct > 0 && self.rng.chance(1, 3) {
+                    let (f0, f1) = (fv[0].clone(), fv[1].clone());
+                    let b = a.rename_vars(&|v| {
+                        if v == f0 {
+                            f1.clone()
+                        } else if v == f1 {
+                            f0.clone()
+                        } else {
+                            v.to_string()
+                        }
+                    });
+                    return bin(op, a, b);
+                }
                 let b = self.go(size - 1 - left, scope);
                 bin(op, a, b)
             }
